@@ -16,8 +16,13 @@ def run(ctx):
     for f in ("F1", "F3", "F6"):
         ctx.negative_control(_world.MC, f"World_C03_neg_{f}.cfg", "MirrorAlways")
     _world.spec_to_code(ctx, "World_MBT_c03.cfg", sample=2500 if q else None)
+    from ..drivers import world as Wd
+    progs = Wd.carrier_programs(4) + Wd.carrier_programs(3, ("grid2d", [3, 2, 0], False)) + \
+        Wd.carrier_programs(5, limit=40 if q else None, rng=ctx.rng) + \
+        (Wd.carrier_programs(4, ("space", [16, 8, 0], True)) + Wd.carrier_programs(6, limit=300, rng=ctx.rng) if not q else [])
+    _world.validate_programs(ctx, progs, "3..6 carriers of the same component types join, then leave in every order (each permutation), first leaver re-joins")
     n = 250 if q else 2500
-    runs = _world.random_runs(ctx, n, kinds=ALLK, mods="clean", length=40, weights=NOQ)
+    runs = _world.random_runs(ctx, n, kinds=ALLK, mods="clean", length=50, weights=NOQ, n_ids=5)
     _world.validate_runs(ctx, runs, "random histories, components changed only while not resident, 5 world kinds, 2 models")
     runs = _world.random_runs(ctx, n, kinds=ALLK, mods="sanctioned", length=40, weights=NOQ)
     _world.validate_runs(ctx, runs, "random histories, residents modified with the explicit register/deregister calls", expect_clean=False)
